@@ -79,7 +79,11 @@ ASSUMPTIONS = [
     "correspondence of MPD/MPC on zero-component, collinear and constant shapes disagrees and the oracle reports the NaNs",
 ]
 
-KINDS = ["gauss", "int", "unit", "zeros", "near", "collinear", "collinear0", "const", "unitcol", "isotropic"]
+KINDS = ["gauss", "int", "unit", "zeros", "near", "collinear", "collinear0", "const", "unitcol", "isotropic", "offset", "offsetg"]
+# "offset": c*(1 + e*r), r real - collinear, all components nearly equal (scatter e = 1e-9..1e-1 about a common value);
+# "offsetg": the same with a complex scatter (not collinear).  np.cov removes the mean in a separate pass, so gen.MPC is
+# accurate to rounding of the INPUT on such shapes (measured: |MPC - exact| <= 3 eps for spread ratios up to 1e18); a
+# one-pass formula sum(x^2) - sum(x)^2/n is not.
 
 
 def _gen():
@@ -151,6 +155,23 @@ def gen_shape(ctx, g, n, kind):
             phi = phi / phi[np.argmax(np.abs(phi))]
         meta["v"] = v
         meta["c"] = c
+    elif kind in ("offset", "offsetg"):
+        e = 10.0 ** ctx.rng.uniform(-9, -1)
+        base = ctx.rng.choice([1.0, -2.5, 0.3])
+        r = g.standard_normal(n)
+        if np.ptp(r) == 0:
+            r[-1] += 1.0
+        c = rand_scale(ctx, g)
+        if kind == "offset":
+            v = base * (1.0 + e * r)
+            phi = c * v
+            meta["v"] = v
+            meta["c"] = c
+        else:
+            phi = c * (base * (1.0 + 0.4j) + e * (r + 1j * g.standard_normal(n)))
+        if ctx.rng.random() < 0.5:
+            phi = phi / phi[np.argmax(np.abs(phi))]
+        meta["eps"] = e
     elif kind == "isotropic":
         m = n // 2
         a = g.integers(-4, 5, size=m).astype(float)
@@ -362,8 +383,9 @@ def _corr_mpc(ctx, gen, g):
     ctx.corr("np.cov", okS, kw, Sm, S.tolist(), (kind, n))
     rho = spread_ratio(phi)
     v = float(complex(val).real)
-    if rho == math.inf or rho < 1e6:
-        tol = 1e-12 if rho == math.inf else 4e-13 * rho + 1e-12
+    if rho == math.inf or rho < 1e20:
+        # two-pass mean removal: accurate to rounding of the input whatever the spread ratio (calibrated: <= 3 eps)
+        tol = 1e-12 if rho == math.inf else 1e-11
         ok = imag0 and m["closed"] is not None and close(v, fl(m["closed"]), tol, ctx, "corr_MPC_closed")
         ctx.corr("MPC[closed]", ok, kw, m["closed"], v, (kind, n))
     else:
@@ -437,7 +459,7 @@ def classify(phi, meta):
     kind = meta["kind"]
     if kind == "const" or (len(phi) > 1 and np.all(phi == phi[0])):
         return "constant"
-    col = kind in ("collinear", "collinear0", "unitcol")
+    col = kind in ("collinear", "collinear0", "unitcol", "offset")
     zero = bool(np.any(phi == 0))
     if zero and col:
         return "collinear-zero-component"
@@ -485,7 +507,7 @@ def check_scale(ctx, gen, phi, meta, psi, c, base):
         ("MAC", lambda p: gen.MAC(p, psi), 1e-9),
         ("MAC2", lambda p: gen.MAC(psi, p), 1e-9),
         ("MCF", lambda p: gen.MCF(p)[0], 1e-9),
-        ("MPC", gen.MPC, 1e-9 if rho == math.inf else (None if rho > 1e6 else 1e-9 * (1 + rho))),
+        ("MPC", gen.MPC, 1e-9 if rho == math.inf else (None if rho > 1e20 else 1e-9 + 1e-14 * math.sqrt(rho))),
         ("MPD", gen.MPD, None if gap < 1e-6 else 2e-7 + 1e-9 / gap),
     ):
         if tol is None:
@@ -514,7 +536,7 @@ def check_collinear(ctx, gen, phi, meta):
         ("MAC", lambda: gen.MAC(phi, v), 1.0, 1e-12),
         ("MAC", lambda: gen.MAC(v, phi), 1.0, 1e-12),
         ("MCF", lambda: gen.MCF(phi)[0], 0.0, 1e-12),
-        ("MPC", lambda: gen.MPC(phi), 1.0, 1e-12 if rho == math.inf else (None if rho > 1e6 else 1e-9 * (1 + rho))),
+        ("MPC", lambda: gen.MPC(phi), 1.0, 1e-12 if rho == math.inf else (None if rho > 1e20 else 1e-11 + 1e-14 * math.sqrt(rho))),
         ("MPD", lambda: gen.MPD(phi), 0.0, 1e-6),
     )
     for name, f, want, tol in exp:
